@@ -1182,6 +1182,16 @@ func (s *Sched) TaskDone(name string) bool {
 	return t == nil || t.state == stDone
 }
 
+// TaskReleases: how many times the task has been given the processor so far.
+func (s *Sched) TaskReleases(name string) int {
+	s.mu.Lock()
+	defer s.mu.Unlock()
+	if t := s.tasks[name]; t != nil {
+		return t.releases
+	}
+	return 0
+}
+
 func (s *Sched) YieldCounts() map[string]int {
 	s.mu.Lock()
 	defer s.mu.Unlock()
